@@ -12,7 +12,7 @@ VARIABLE hist
 
 Proj(s) == [term |-> s.term, vote |-> ToString(s.vote), role |-> s.role,
             last |-> LastIdx(s.log), lastt |-> LastTerm(s.log), commit |-> s.commit,
-            pend |-> Cardinality(DOMAIN s.pend), base |-> s.log.base, snap |-> s.snap.idx]
+            pend |-> Cardinality(DOMAIN s.pend), base |-> s.log.base, snap |-> s.snap.idx, cfgi |-> s.cfg.idx]
 Step(a, n, p, v) == hist' = Append(hist, [a |-> a, n |-> ToString(n), p |-> ToString(p), v |-> ToString(v),
                                           post |-> [m \in Node |-> Proj(ns'[m])]])
 
@@ -28,6 +28,9 @@ GNext ==
   \/ \E n \in Node : Restart(n) /\ Step("Restart", n, n, "")
   \/ \E n \in Node : ArmSnapshot(n) /\ Step("ArmSnapshot", n, n, "")
   \/ \E n, p \in Node : ISExchange(n, p) /\ Step("ISExchange", n, p, "")
+  \/ \E n, p \in Node : AddServer(n, p, TRUE) /\ Step("AddVoter", n, p, "")
+  \/ \E n, p \in Node : AddServer(n, p, FALSE) /\ Step("AddNonVoter", n, p, "")
+  \/ \E n, p \in Node : RemoveServer(n, p) /\ Step("RemoveServer", n, p, "")
 GSpec == GInit /\ [][GNext]_<<vars, hist>>
 
 \* "invariant" with a side effect: the current prefix of behaviour number k goes to t<k>.json
